@@ -267,7 +267,7 @@ def b3_configs(tier, fixed):
         ("value cap0 settled", consts("value", fixed, Settled=True, AllowEmpty=True, AllowStop=True, MaxCmd=3, MaxSet=1,
                                        MaxSteps=5, SockCap=0)),
         ("map settled hold", consts("map", fixed, Settled=True, AllowHold=True, AllowStop=True, MaxCmd=2, MaxSet=1, MaxSteps=5,
-                                     SockCap=1, InitLane="<- LaneM2")),
+                                     SockCap=1, KeySeq="<- Keys1")),
     ]
 
 
